@@ -10,6 +10,7 @@ import (
 	"sort"
 	"strings"
 	"sync"
+	"time"
 
 	"github.com/mimecast/dtail/verifharness/internal/vlib"
 )
@@ -225,7 +226,77 @@ func c18(r *vlib.Run) int {
 	c18E2E(r)
 	c18Reconnect(r)
 	c18ManyLongLived(r)
+	c18DeadServers(r)
 	return n / 2
+}
+
+// c18DeadServers: most of the listed servers are down (connection refused),
+// many more of them than the client attempts at a time (--cpc 1). The servers
+// that are up are still contacted, each once, and the client ends.
+func c18DeadServers(r *vlib.Run) {
+	key, err := vlib.GenKey("ed25519")
+	if err != nil {
+		r.Inconclusive("keygen")
+		return
+	}
+	hk := vlib.HostKey()
+	hkFile := r.Dir("c18dead") + "/hostkey.pem"
+	os.WriteFile(hkFile, hk.PEM, 0600)
+	for round := 0; round < r.N(1, 4); round++ {
+		nDead, nUp := 2*runtime.NumCPU()+8, 4
+		seen := map[int]bool{}
+		var up, dead []int
+		for len(up) < nUp || len(dead) < nDead {
+			p := vlib.FreePort()
+			if p == 0 || seen[p] {
+				continue
+			}
+			seen[p] = true
+			if len(up) < nUp {
+				up = append(up, p)
+			} else {
+				dead = append(dead, p)
+			}
+		}
+		f, err := startFakeSSHD(r, fmt.Sprintf("c18dead-%d", round), up, []string{hkFile}, "", 100)
+		if err != nil {
+			r.Inconclusive("fakesshd")
+			return
+		}
+		var list []string
+		for _, p := range append(append([]int(nil), dead...), up...) {
+			list = append(list, fmt.Sprintf("127.0.0.1:%d", p))
+		}
+		home, keyFile := r.ClientHome(fmt.Sprintf("c18dead-%d", round), key)
+		args := []string{"--cfg", "none", "--noColor", "--trustAllHosts", "--key", keyFile, "--user", "tester", "--cpc", "1",
+			"--logger", "stdout", "--logLevel", "error", "--files", "/etc/hostname", "--servers", strings.Join(list, ",")}
+		res := vlib.RunCmd(vlib.Cmd{Path: r.Bin("dcat"), Args: args, Env: []string{"HOME=" + home}, Dir: home, Watchdog: 120 * time.Second})
+		shells := map[int]int{}
+		for _, e := range f.Events() {
+			if e.Ev == "shell" {
+				shells[e.Port]++
+			}
+		}
+		f.Stop()
+		os.RemoveAll(home)
+		r.Eval(fmt.Sprintf("dead|%d|%d", nDead, nUp))
+		r.Count("runs_with_most_servers_down", 1)
+		if res.TimedOut {
+			r.Inconclusive("dcat-watchdog")
+			continue
+		}
+		bad := 0
+		for _, p := range up {
+			if shells[p] != 1 {
+				bad++
+			}
+		}
+		r.Count("live_servers_contacted_among_dead_ones", len(shells))
+		if bad > 0 || res.Hung {
+			r.Violation("servers-not-contacted-once-when-others-are-down", map[string]interface{}{"dead_servers": nDead, "live_servers": nUp, "cpus": runtime.NumCPU(),
+				"live_servers_not_contacted_exactly_once": bad, "contacts": fmt.Sprint(shells), "client_hung": res.Hung, "exit": res.Exit})
+		}
+	}
 }
 
 // c18ManyLongLived: more servers than the client connects to at a time
